@@ -4,7 +4,7 @@
 extern "C" {
 void ht_install(void); void ht_begin(void); void ht_end(void); void ht_set_tag(int);
 unsigned ht_live_count(void); size_t ht_live_bytes(void); int ht_describe(char *, size_t); int ht_overflowed(void);
-unsigned long ht_total(void); void ht_forget(const void *);
+unsigned long ht_total(void); void ht_forget(const void *); int ht_live_all_cstr_suffix(const char *);
 }
 template <class T> static inline T vt_la_end(T v) { ht_end(); return v; }
 #define LA(call) (ht_begin(), vt_la_end(call))
